@@ -262,6 +262,15 @@ void QXmppIncomingClient::handleStanza(const QDomElement &nodeRecv)
         d->idleTimer->start();
     }
 
+    // a connection authenticates once: a later exchange would replace the JID this client is
+    // registered under in the server's routing tables
+    if ((ns == ns_sasl || ns == ns_sasl_2) && !d->jid.isEmpty()) {
+        warning(u"Received a SASL element from already authenticated client '%1'"_s.arg(d->jid));
+        sendData(QByteArrayLiteral("<stream:error><policy-violation xmlns='urn:ietf:params:xml:ns:xmpp-streams'/></stream:error>"));
+        disconnectFromHost();
+        return;
+    }
+
     if (StarttlsRequest::fromDom(nodeRecv)) {
         sendData(serializeXml(StarttlsProceed()));
         d->socket.socket()->flush();
